@@ -38,8 +38,8 @@ section = ['### 9.6 Independently written breaking changes (`seeded/`)', '',
  'worktree of the current HEAD and re-runs the named check); the exceptions, where the named check does',
  'not apply and a neighbouring property\'s check catches the change, or where the change is not caught,',
  'are said so in the bold note of their row. Round 9 (six changes, written in the last hour) was',
- 'confirmed and run but not followed by strengthening: its two misses (`C05i`, `C09i`) are open gaps,',
- 'described in their rows and in `seeded/<id>/meta.json`.', '',
+ 'only partly followed by strengthening: `C05i` led to C05\'s reflow cases and is caught now; `C09i`',
+ 'is an open gap, described in its row, in §7 and in `seeded/<id>/meta.json`.', '',
  'Each change was written by a fresh sub-agent that saw only the property text and a scratch git',
  'worktree of the repository (nothing from /verif). Every entry was confirmed by `tools/seeded.py`:',
  'the author\'s `demo.py` exits 1 with the change and 0 without it, the pinned suite still passes with',
